@@ -4,4 +4,4 @@ out="$1"; i="$2"; prop="$3"; name="$4"; tier="${5:-quick}"
 here="$(dirname "$(readlink -f "$0")")"
 $here/confirm_seed.sh $out $i
 echo "--- check $prop $tier against $out/patch$i.diff"
-$here/try_patch_wt.sh $out/patch$i.diff $tier $prop 2>&1 | cut -c1-300 | head -30
+$here/try_patch_wt.sh $out/patch$i.diff $tier $prop 2>&1 | cut -c1-300 | grep -v "^KNOWN" | awk '/^VIOLATION/{n++} n<=6 || /quick:|thorough:|^exit=|INFRA|worktree/'
